@@ -7,6 +7,8 @@ import PdModel.Proto
 * `report <isModule> <docstring_lineno> <linenumber> <d|x|o> <offset>` → printed line or `???`
 * `doc <e|r|g|n> <isModule> <linenumber> <strLineno> <u:value> <cls:raw:j>*`
       cls ∈ E U P X                        → `dl=… n=… | <line>:<cls> …` (sorted)
+* `inherit <fmt> <srcFile> <srcLinenumber> <strLineno> <u:value> <-|file.ln,…> <cls:raw:j>*`
+      → set of `<file>:<line>:<cls>` printed when the source and the inheriting objects are rendered
 * `inrange <strLineno> <u:value> <isModule> <linenumber> <d|x|o> <offset>` → `<line> in|out`
 * `sys <W> <verbosity> <op>*`  ops: `m:<sec>:<msg>:<thresh>:<top>:<once>`, `r:<sec>:<obj>:<nerrs>`
       (reportErrors), `v:<n>` (set violations), `p:<sec>:<obj>` (add name), `k:<sec>` (touch key)
@@ -113,6 +115,21 @@ def handle (args : List String) : String :=
       "dl=" ++ toString (extractLinenum sl doc) ++ " n=" ++ toString (cleandocLines doc).length
         ++ " | " ++ " ".intercalate (sortToks toks)
     | _, _, _, _, _, _ => "bad-op"
+  | "inherit" :: fmt :: sfile :: sln :: sl :: v :: inh :: cs =>
+    -- inh: `-` or `file.linenumber,file.linenumber,…` (the objects showing the inherited docstring)
+    match parseFmt fmt, sfile.toNat?, parseInt sln, sl.toNat?, Proto.decodeStr v, cs.mapM parseConstruct,
+      (if inh == "-" then some [] else (inh.splitOn ",").mapM fun t =>
+        match t.splitOn "." with
+        | [f, l] => do some (← f.toNat?, ← parseInt l)
+        | _ => none) with
+    | some fmt, some sfile, some sln, some sl, some doc, some cs, some inh =>
+      let source : Located := ⟨sfile, ⟨0, sln, false⟩⟩
+      let viewers : List Located := source :: inh.map fun p => ⟨p.1, ⟨0, p.2, false⟩⟩
+      let toks := viewers.flatMap fun o => (reportedConstructs fmt cs).map fun c =>
+        let r := reportedAt fmt sl doc source o c
+        toString r.1 ++ ":" ++ showLine r.2 ++ ":" ++ showCls c.cls
+      " ".intercalate ((sortToks toks).eraseDups)
+    | _, _, _, _, _, _, _ => "bad-op"
   | ["inrange", sl, v, im, ln, sec, off] =>
     match sl.toNat?, Proto.decodeStr v, parseBool im, parseInt ln, parseSec sec, parseInt off with
     | some sl, some doc, some im, some ln, some sec, some off =>
